@@ -641,7 +641,360 @@ static int hl_belt_kexp(size_t np, const size_t* p)
 	return 0;
 }
 
-/*HL_PART2*/
+/* ---------------------------------------------------------------- bash */
+
+/* bash-hash seed l n */
+static int hl_bash_hash(size_t np, const size_t* p)
+{
+	size_t l = p[1], n = p[2], s, hl;
+	octet *x, *h, *h1, *h2, *b1, *b2;
+	void* st;
+	hl_seed(p[0]);
+	x = hl_r(n), h = hl_m(l / 4), h1 = hl_m(l / 4);
+	HL_E(bashHash(h, l, x, n), "bashHash");
+	s = hl_below(n + 1);
+	b1 = hl_dup(x, s), b2 = hl_dup(x + s, n - s);
+	st = hl_m(bashHash_keep());
+	bashHashStart(st, l);
+	bashHashStepH(b1, s, st);
+	bashHashStepG(h1, l / 4, st);
+	bashHashStepH(b2, n - s, st);
+	bashHashStepG(h1, l / 4, st);
+	HL_EQ(h, h1, l / 4, "bashHash-steps");
+	HL_T(bashHashStepV(h, l / 4, st) == TRUE, "bashHashStepV");
+	hl = hl_below(l / 4 + 1);
+	h2 = hl_m(hl);
+	bashHashStepG(h2, hl, st);
+	HL_EQ(h, h2, hl, "bashHash-short");
+	HL_T(bashHashStepV(h2, hl, st) == TRUE, "bashHashStepV-short");
+	return 0;
+}
+
+/* bash-f seed reps */
+static int hl_bash_f(size_t np, const size_t* p)
+{
+	octet *b, *c;
+	void* stack;
+	size_t i;
+	hl_seed(p[0]);
+	b = hl_r(192), c = hl_dup(b, 192);
+	stack = hl_m(bashF_deep());
+	for (i = 0; i < p[1]; ++i)
+		bashF(b, stack);
+	HL_T(p[1] == 0 || memcmp(b, c, 192) != 0, "bashF-noop");
+	return 0;
+}
+
+/* bash-prg seed l d ann_len key_len n : key_len in {0} or >= l/8, % 4 == 0, <= 60 */
+static int hl_bash_prg(size_t np, const size_t* p)
+{
+	size_t l = p[1], d = p[2], al = p[3], kl = p[4], n = p[5], s;
+	octet *ann, *key, *x, *b1, *b2, *c1, *c2, *o1, *o2, *o3;
+	void *sa, *sb;
+	hl_seed(p[0]);
+	ann = hl_r(al), key = hl_r(kl), x = hl_r(n);
+	sa = hl_m(bashPrg_keep()), sb = hl_m(bashPrg_keep());
+	s = hl_below(n + 1);
+	bashPrgStart(sa, l, d, ann, al, key, kl);
+	bashPrgStart(sb, l, d, ann, al, key, kl);
+	/* absorb: one-shot on A, two steps on B */
+	b1 = hl_dup(x, s), b2 = hl_dup(x + s, n - s);
+	bashPrgAbsorb(x, n, sa);
+	bashPrgAbsorbStart(sb);
+	bashPrgAbsorbStep(b1, s, sb);
+	bashPrgAbsorbStep(b2, n - s, sb);
+	/* squeeze */
+	o1 = hl_m(n), o2 = hl_m(s), o3 = hl_m(n - s);
+	bashPrgSqueeze(o1, n, sa);
+	bashPrgSqueezeStart(sb);
+	bashPrgSqueezeStep(o2, s, sb);
+	bashPrgSqueezeStep(o3, n - s, sb);
+	HL_EQ(o1, o2, s, "prg-squeeze-1");
+	HL_EQ(o1 + s, o3, n - s, "prg-squeeze-2");
+	bashPrgRatchet(sa);
+	bashPrgRatchet(sb);
+	if (kl)
+	{
+		/* encrypt on A (one-shot), decrypt on B (steps) */
+		c1 = hl_dup(x, n);
+		bashPrgEncr(c1, n, sa);
+		c2 = hl_dup(c1, s);
+		b2 = hl_dup(c1 + s, n - s);
+		bashPrgDecrStart(sb);
+		bashPrgDecrStep(c2, s, sb);
+		bashPrgDecrStep(b2, n - s, sb);
+		HL_EQ(c2, x, s, "prg-decr-1");
+		HL_EQ(b2, x + s, n - s, "prg-decr-2");
+		/* encrypt on B (steps), decrypt on A (one-shot) */
+		memcpy(c2, x, s);
+		memcpy(b2, x + s, n - s);
+		bashPrgEncrStart(sb);
+		bashPrgEncrStep(c2, s, sb);
+		bashPrgEncrStep(b2, n - s, sb);
+		memcpy(c1, c2, s);
+		memcpy(c1 + s, b2, n - s);
+		bashPrgDecr(c1, n, sa);
+		HL_EQ(c1, x, n, "prg-decr-3");
+	}
+	/* restart with the same announcement / key, states must stay in sync */
+	bashPrgRestart(ann, al, key, kl, sa);
+	bashPrgRestart(ann, al, key, kl, sb);
+	bashPrgSqueeze(o1, n, sa);
+	bashPrgSqueeze(o2, s, sb);
+	HL_EQ(o1, o2, s, "prg-restart");
+	return 0;
+}
+
+/* ---------------------------------------------------------------- brng */
+
+/* brng-ctr seed n iv(0: NULL iv in Start, 1: random) */
+static int hl_brng_ctr(size_t np, const size_t* p)
+{
+	size_t n = p[1], s;
+	octet *key, *iv, *iv1, *x, *b, *b1, *b2, *ivo, *z;
+	void* st;
+	hl_seed(p[0]);
+	key = hl_r(32), iv = hl_r(32), x = hl_r(n);
+	/* one-shot */
+	b = hl_dup(x, n), iv1 = hl_dup(iv, 32);
+	HL_E(brngCTRRand(b, n, key, iv1), "brngCTRRand");
+	/* steps: single StepR equals the one-shot */
+	st = hl_m(brngCTR_keep());
+	brngCTRStart(st, key, iv);
+	b1 = hl_dup(x, n);
+	brngCTRStepR(b1, n, st);
+	HL_EQ(b, b1, n, "brngCTR-steps");
+	ivo = hl_m(32);
+	brngCTRStepG(ivo, st);
+	HL_EQ(ivo, iv1, 32, "brngCTR-stepG");
+	/* two chunks (buffered generation) */
+	s = hl_below(n + 1);
+	b1 = hl_dup(x, s), b2 = hl_dup(x + s, n - s);
+	brngCTRStart(st, key, p[2] ? iv : 0);
+	brngCTRStepR(b1, s, st);
+	brngCTRStepR(b2, n - s, st);
+	brngCTRStepG(ivo, st);
+	if (!p[2])
+	{
+		/* NULL iv == zero iv */
+		void* st2 = hl_m(brngCTR_keep());
+		z = hl_m(32);
+		memset(z, 0, 32);
+		brngCTRStart(st2, key, z);
+		b = hl_dup(x, s);
+		brngCTRStepR(b, s, st2);
+		HL_EQ(b, b1, s, "brngCTR-nulliv");
+	}
+	return 0;
+}
+
+/* brng-hmac seed key_len iv_len n */
+static int hl_brng_hmac(size_t np, const size_t* p)
+{
+	size_t kl = p[1], il = p[2], n = p[3], s;
+	octet *key, *iv, *b, *b1, *b2;
+	void* st;
+	hl_seed(p[0]);
+	key = hl_r(kl), iv = hl_r(il), b = hl_m(n);
+	HL_E(brngHMACRand(b, n, key, kl, iv, il), "brngHMACRand");
+	s = hl_below(n + 1);
+	b1 = hl_m(s), b2 = hl_m(n - s);
+	st = hl_m(brngHMAC_keep());
+	brngHMACStart(st, key, kl, iv, il);
+	brngHMACStepR(b1, s, st);
+	brngHMACStepR(b2, n - s, st);
+	HL_EQ(b, b1, s, "brngHMAC-steps-1");
+	HL_EQ(b + s, b2, n - s, "brngHMAC-steps-2");
+	return 0;
+}
+
+/* ---------------------------------------------------------------- botp */
+
+/* botp-hotp seed digit key_len */
+static int hl_botp_hotp(size_t np, const size_t* p)
+{
+	size_t digit = p[1], kl = p[2];
+	octet *key, *ctr, *ctr0, *ctr1;
+	char *otp, *otp1;
+	void* st;
+	hl_seed(p[0]);
+	key = hl_r(kl), ctr = hl_r(8), ctr0 = hl_dup(ctr, 8), ctr1 = hl_m(8);
+	otp = (char*)hl_m(digit + 1), otp1 = (char*)hl_m(digit + 1);
+	HL_E(botpHOTPRand(otp, digit, key, kl, ctr), "botpHOTPRand");
+	HL_T(strlen(otp) == digit, "hotp-len");
+	HL_E(botpHOTPVerify(otp, key, kl, ctr), "botpHOTPVerify");
+	st = hl_m(botpHOTP_keep());
+	botpHOTPStart(st, digit, key, kl);
+	botpHOTPStepS(st, ctr);
+	botpHOTPStepR(otp1, st);
+	HL_T(strcmp(otp, otp1) == 0, "hotp-steps");
+	botpHOTPStepG(ctr1, st);
+	botpCtrNext(ctr0);
+	HL_EQ(ctr0, ctr1, 8, "hotp-ctr");
+	botpHOTPStepS(st, ctr);
+	HL_T(botpHOTPStepV(otp, st) == TRUE, "botpHOTPStepV");
+	botpHOTPStepR(otp1, st);
+	return 0;
+}
+
+/* botp-totp seed digit key_len t */
+static int hl_botp_totp(size_t np, const size_t* p)
+{
+	size_t digit = p[1], kl = p[2];
+	tm_time_t t = (tm_time_t)p[3];
+	octet* key;
+	char *otp, *otp1;
+	void* st;
+	hl_seed(p[0]);
+	key = hl_r(kl);
+	otp = (char*)hl_m(digit + 1), otp1 = (char*)hl_m(digit + 1);
+	HL_E(botpTOTPRand(otp, digit, key, kl, t), "botpTOTPRand");
+	HL_T(strlen(otp) == digit, "totp-len");
+	HL_E(botpTOTPVerify(otp, key, kl, t), "botpTOTPVerify");
+	st = hl_m(botpTOTP_keep());
+	botpTOTPStart(st, digit, key, kl);
+	botpTOTPStepR(otp1, t, st);
+	HL_T(strcmp(otp, otp1) == 0, "totp-steps");
+	HL_T(botpTOTPStepV(otp, t, st) == TRUE, "botpTOTPStepV");
+	return 0;
+}
+
+/* botp-ocra seed suite q_len key_len t ; parameters the suite does not use are NULL */
+static const struct { const char* suite; size_t digit, ctr, p_len, s_len; char q; } hl_ocra_[] = {
+	{ "OCRA-1:HOTP-HBELT-8:C-QN08-PHBELT-S064-T1M", 8, 1, 32, 64, 'N' },
+	{ "OCRA-1:HOTP-HBELT-6:QN08", 6, 0, 0, 0, 'N' },
+	{ "OCRA-1:HOTP-HBELT-4:QA64-PSHA512-S512", 4, 0, 64, 512, 'A' },
+	{ "OCRA-1:HOTP-HBELT-9:C-QH10-PSHA1-T48H", 9, 1, 20, 0, 'H' },
+	{ "OCRA-1:HOTP-HBELT-7:C-QN04-PSHA256-S001", 7, 1, 32, 1, 'N' },
+	{ "OCRA-1:HOTP-HBELT-8:QA10-PHBELT-T59S", 8, 0, 32, 0, 'A' },
+	{ "OCRA-1:HOTP-HBELT-5:C-QA33", 5, 1, 0, 0, 'A' },
+	{ "OCRA-1:HOTP-HBELT-8:QN08-S064", 8, 0, 0, 64, 'N' },		/* s without p */
+	{ "OCRA-1:HOTP-HBELT-6:C-QH64-S512-T1S", 6, 1, 0, 512, 'H' },	/* s without p */
+};
+
+static int hl_botp_ocra(size_t np, const size_t* p)
+{
+	size_t k = p[1], ql = p[2], kl = p[3], i, digit;
+	tm_time_t t = (tm_time_t)p[4];
+	octet *key, *ctr, *ctr1, *pp, *ss, *q;
+	char *suite, *otp, *otp1;
+	void* st;
+	hl_seed(p[0]);
+	if (k >= sizeof(hl_ocra_) / sizeof(hl_ocra_[0])) return hl_fail("bad-suite", k);
+	digit = hl_ocra_[k].digit;
+	suite = hl_str(hl_ocra_[k].suite);
+	key = hl_r(kl);
+	ctr = hl_ocra_[k].ctr ? hl_r(8) : 0;
+	pp = hl_ocra_[k].p_len ? hl_r(hl_ocra_[k].p_len) : 0;
+	ss = hl_ocra_[k].s_len ? hl_r(hl_ocra_[k].s_len) : 0;
+	q = hl_m(ql);
+	for (i = 0; i < ql; ++i)
+		q[i] = (octet)(hl_ocra_[k].q == 'N' ? "0123456789"[hl_below(10)] :
+			hl_ocra_[k].q == 'H' ? "0123456789ABCDEF"[hl_below(16)] :
+			"0123456789ABCDEFGHIJKLMNOPQRSTUVWXYZabcdefghijklmnopqrstuvwxyz"[hl_below(62)]);
+	otp = (char*)hl_m(digit + 1), otp1 = (char*)hl_m(digit + 1);
+	HL_E(botpOCRARand(otp, suite, key, kl, q, ql, ctr, pp, ss, t), "botpOCRARand");
+	HL_T(strlen(otp) == digit, "ocra-len");
+	HL_E(botpOCRAVerify(otp, suite, key, kl, q, ql, ctr, pp, ss, t), "botpOCRAVerify");
+	st = hl_m(botpOCRA_keep());
+	HL_T(botpOCRAStart(st, suite, key, kl) == TRUE, "botpOCRAStart");
+	botpOCRAStepS(st, ctr, pp, ss);
+	botpOCRAStepR(otp1, q, ql, t, st);
+	HL_T(strcmp(otp, otp1) == 0, "ocra-steps");
+	if (ctr)
+	{
+		ctr1 = hl_m(8);
+		botpOCRAStepG(ctr1, st);
+		botpCtrNext(ctr);
+		HL_EQ(ctr, ctr1, 8, "ocra-ctr");
+	}
+	botpOCRAStepR(otp1, q, ql, t, st);
+	if (ctr)
+		botpOCRAStepS(st, ctr, pp, ss);
+	HL_T(botpOCRAStepV(otp1, q, ql, t, st) == TRUE, "botpOCRAStepV");
+	return 0;
+}
+
+/* ---------------------------------------------------------------- bels */
+
+/* bels-m seed len id_len */
+static int hl_bels_m(size_t np, const size_t* p)
+{
+	size_t len = p[1], idl = p[2], num;
+	octet *m, *m0, *mi, *id;
+	void* ang;
+	hl_seed(p[0]);
+	for (num = 0; num <= 16; ++num)
+	{
+		m = hl_m(len);
+		HL_E(belsStdM(m, len, num), "belsStdM");
+		HL_E(belsValM(m, len), "belsValM");
+	}
+	ang = hl_combo();
+	m0 = hl_m(len), mi = hl_m(len), id = hl_r(idl);
+	HL_E(belsGenM0(m0, len, prngCOMBOStepR, ang), "belsGenM0");
+	HL_E(belsValM(m0, len), "belsValM-m0");
+	HL_E(belsGenMi(mi, len, m0, prngCOMBOStepR, ang), "belsGenMi");
+	HL_E(belsValM(mi, len), "belsValM-mi");
+	HL_E(belsGenMid(mi, len, m0, id, idl), "belsGenMid");
+	HL_E(belsValM(mi, len), "belsValM-mid");
+	return 0;
+}
+
+/* bels-share seed len count threshold rng(0: COMBO, 1: brngCTR) */
+static int hl_bels_share(size_t np, const size_t* p)
+{
+	size_t len = p[1], count = p[2], thr = p[3], i, j, used;
+	octet *s, *s1, *m0, *mi, *si, *mi2, *si2, *perm;
+	gen_i rng = p[4] ? brngCTRStepR : prngCOMBOStepR;
+	void* rs;
+	hl_seed(p[0]);
+	rs = p[4] ? hl_ctr() : hl_combo();
+	s = hl_r(len), s1 = hl_m(len), m0 = hl_m(len);
+	mi = hl_m(count * len), si = hl_m(count * len);
+	HL_E(belsStdM(m0, len, 0), "belsStdM-0");
+	for (i = 0; i < count; ++i)
+		HL_E(belsStdM(mi + i * len, len, i + 1), "belsStdM-i");
+	/* belsShare / belsRecover on explicit keys */
+	HL_E(belsShare(si, count, thr, len, s, m0, mi, rng, rs), "belsShare");
+	/* a pseudorandom subset of exactly `used` users, thr <= used <= count */
+	used = thr + hl_below(count - thr + 1);
+	perm = hl_m(count);
+	for (i = 0; i < count; ++i) perm[i] = (octet)i;
+	for (i = count; i > 1; --i)
+	{
+		octet t;
+		j = hl_below(i);
+		t = perm[i - 1], perm[i - 1] = perm[j], perm[j] = t;
+	}
+	mi2 = hl_m(used * len), si2 = hl_m(used * len);
+	for (i = 0; i < used; ++i)
+	{
+		memcpy(mi2 + i * len, mi + perm[i] * len, len);
+		memcpy(si2 + i * len, si + perm[i] * len, len);
+	}
+	HL_E(belsRecover(s1, used, len, si2, m0, mi2), "belsRecover");
+	HL_EQ(s, s1, len, "bels-recover");
+	/* standard keys: blocks of len + 1 octets */
+	si = hl_m(count * (len + 1));
+	HL_E(belsShare2(si, count, thr, len, s, rng, rs), "belsShare2");
+	si2 = hl_m(used * (len + 1));
+	for (i = 0; i < used; ++i)
+		memcpy(si2 + i * (len + 1), si + perm[i] * (len + 1), len + 1);
+	memset(s1, 0, len);
+	HL_E(belsRecover2(s1, used, len, si2), "belsRecover2");
+	HL_EQ(s, s1, len, "bels-recover2");
+	/* deterministic sharing */
+	HL_E(belsShare3(si, count, thr, len, s), "belsShare3");
+	for (i = 0; i < used; ++i)
+		memcpy(si2 + i * (len + 1), si + perm[i] * (len + 1), len + 1);
+	memset(s1, 0, len);
+	HL_E(belsRecover2(s1, used, len, si2), "belsRecover2-3");
+	HL_EQ(s, s1, len, "bels-recover3");
+	return 0;
+}
+
+/*HL_PART3*/
 
 /* ---------------------------------------------------------------- dispatch */
 
@@ -664,7 +1017,17 @@ static const struct { const char* name; hl_fn fn; size_t np; } hl_tab_[] = {
 	{ "belt-fmt", hl_belt_fmt, 5 },
 	{ "belt-pbkdf2", hl_belt_pbkdf2, 4 },
 	{ "belt-kexp", hl_belt_kexp, 2 },
-/*HL_TAB2*/
+	{ "bash-hash", hl_bash_hash, 3 },
+	{ "bash-f", hl_bash_f, 2 },
+	{ "bash-prg", hl_bash_prg, 6 },
+	{ "brng-ctr", hl_brng_ctr, 3 },
+	{ "brng-hmac", hl_brng_hmac, 4 },
+	{ "botp-hotp", hl_botp_hotp, 3 },
+	{ "botp-totp", hl_botp_totp, 4 },
+	{ "botp-ocra", hl_botp_ocra, 5 },
+	{ "bels-m", hl_bels_m, 3 },
+	{ "bels-share", hl_bels_share, 5 },
+/*HL_TAB3*/
 };
 
 static int c07_hl(int argc, char** argv)
